@@ -73,6 +73,8 @@ def zip_with_iterable_(
                 right = next(second)
             except StopIteration:
                 observer.on_completed()
+            except Exception as ex:  # pylint: disable=broad-except
+                observer.on_error(ex)
             else:
                 result = (left, right)
                 observer.on_next(result)
